@@ -100,6 +100,38 @@ def sig_with_meta(rng):
     return p, kind
 
 
+def attr_load_correspondence(ctx, n):
+    """FieldSignature.deserialize vs the Lean `loadAttrs`: which stored attributes come back, with which values -
+    stored dictionaries with explicit null / False / 0 / '' values, alias keys and keys that are not tracked"""
+    from django.db import models
+    from django_evolution.signature import FieldSignature
+    reqs, pend = [], []
+    types = [models.CharField, models.IntegerField, models.DecimalField, models.ForeignKey, models.ManyToManyField,
+             models.BooleanField]
+    pool = ['max_length', 'null', 'unique', 'db_index', 'db_column', 'primary_key', 'max_digits', 'decimal_places',
+            'db_table', '_unique', 'remote_field', 'bogus']
+    for _ in range(n):
+        ft = ctx.rng.choice(types)
+        stored = OrderedDict()
+        for k in ctx.rng.sample(pool, ctx.rng.randint(0, 6)):
+            stored[k] = ctx.rng.choice([None, None, False, True, 0, 7, '', 'x'])
+        known = [a for a in FieldSignature._iter_attrs_for_field_type(ft) if not hasattr(FieldSignature, a)]
+        d = {'type': '%s.%s' % ('django.db.models', ft.__name__), 'attrs': stored}
+        if ft in (models.ForeignKey, models.ManyToManyField):
+            d['related_model'] = 'vapp.Alpha'
+        real = FieldSignature.deserialize('f', json.loads(json.dumps(d), object_pairs_hook=OrderedDict), sig_version=2)
+        impl = sorted([k, None if v is None else json.dumps(v)] for k, v in real.field_attrs.items())
+        reqs.append({'op': 'load_attrs', 'known': known,
+                     'stored': [[k, None if v is None else json.dumps(v)] for k, v in stored.items()]})
+        pend.append((ft.__name__, dict(stored), impl))
+    outs = ctx.driver.ask(reqs) if ctx.driver else [None] * len(reqs)
+    for (ft, stored, impl), out in zip(pend, outs):
+        ctx.count('attr_load:%s' % ('with_null' if any(v is None for v in stored.values()) else 'no_null'))
+        if out is not None:
+            ctx.corr_case('field_attr_load', sorted(out['loaded']) == impl, case={'type': ft, 'stored': stored},
+                          model=sorted(out['loaded']), impl=impl)
+
+
 def run(ctx):
     evorig.setup()
     quick = ctx.tier == 'quick'
@@ -173,6 +205,7 @@ def run(ctx):
     if w8 is not None:
         ctx.fail(F_TUPLE, 'a tuple-valued attribute comes back as a list (and a list is not equal to a tuple)', w8)
 
+    attr_load_correspondence(ctx, 150 if quick else 3000)
     # ---- signature level: Version.save() / reload, v2 -> v1 -> v2 ------------------------------
     from django_evolution.diff import Diff
     from django_evolution.models import Version
